@@ -15,8 +15,31 @@ BUILD = f"{ROOT}/build"
 REPO = "/repo"
 GOENV = dict(GOFLAGS="-mod=mod", GOPROXY="off", GOSUMDB="off", GOTOOLCHAIN="local",
              CGO_ENABLED="0")
-FORBIDDEN = re.compile(r"\b(Admitted|admit|Axiom|Axioms|Parameter|Parameters|Conjecture|Hypothesis|"
-                       r"Unset\s+Guard|bypass_check|type-in-type|impredicative-set|Admit\s+Obligations)\b")
+FORBIDDEN = re.compile(r"\b(Admitted|admit|Axiom|Axioms|Parameter|Parameters|Conjecture|Conjectures|"
+                       r"Unset\s+Guard|Unset\s+Positivity|Unset\s+Universe|bypass_check|type-in-type|impredicative-set|"
+                       r"Admit\s+Obligations)\b")
+SECTION_ONLY = re.compile(r"^\s*(?:Local\s+|Global\s+)?(Variable|Variables|Hypothesis|Hypotheses)\b")
+
+
+def forbidden_in(src):
+    """First forbidden construct in (comment-stripped) Coq source, or None.  Variable/Hypothesis
+    are allowed inside a Section only (outside they declare axioms)."""
+    m = FORBIDDEN.search(src)
+    if m:
+        return m.group(0)
+    depth = 0
+    for ln in src.splitlines():
+        if re.match(r"^\s*Section\s+\w+\s*\.", ln):
+            depth += 1
+        elif re.match(r"^\s*End\s+\w+\s*\.", ln) and depth > 0:
+            depth -= 1
+        else:
+            mm = SECTION_ONLY.match(ln)
+            if mm and depth == 0:
+                return mm.group(1) + " outside a section"
+    return None
+
+
 # standard-library axioms that theorems may depend on (named in DESIGN.md section 9)
 AXIOM_WHITELIST = {
     "ClassicalDedekindReals.sig_forall_dec",
@@ -159,10 +182,10 @@ def proof_step(pid):
     stmts = quds = 0
     for p in closure:
         src = strip_comments(open(p).read())
-        m = FORBIDDEN.search(src)
-        if m:
+        bad = forbidden_in(src)
+        if bad:
             res["ok"] = False
-            res["problems"].append(f"forbidden construct '{m.group(0)}' in {p}")
+            res["problems"].append(f"forbidden construct '{bad}' in {p}")
         stmts += len(re.findall(r"^\s*(?:Local\s+|Global\s+)?(?:Theorem|Lemma|Corollary|Example|Fact|Remark|Proposition)\b", src, re.M))
         quds += len(re.findall(r"\bQed\.", src))
         if not os.path.exists(p[:-2] + ".vo") or os.path.getmtime(p[:-2] + ".vo") < os.path.getmtime(p):
